@@ -80,6 +80,12 @@ TRACE = {
         ("t_m4_look_to_rh", "m4.look_to_rh " + _seq(9)), ("t_m4_look_to_lh", "m4.look_to_lh " + _seq(9)),
         ("t_m4_look_at_rh", "m4.look_at_rh " + _seq(9)), ("t_m4_look_at_lh", "m4.look_at_lh " + _seq(9)),
         ("t_m3_look_to_lh", "m3.look_to_lh " + _seq(6)), ("t_m3_look_to_rh", "m3.look_to_rh " + _seq(6)),
+        # Matrix2::look_at: the flip comparison `up.x * dir.y >= up.y * dir.x`, both outcomes
+        ("t_m2_look_at_flip", "m2.look_at 3 4 1 0"), ("t_m2_look_at_noflip", "m2.look_at 3 4 0 1"),
+        ("t_m3_tlook_at2_lh", "m3.tlook_at2_lh 1 2 4 6 0 1"), ("t_m3_tlook_at2_rh", "m3.tlook_at2_rh 1 2 4 6 0 1"),
+        ("t_m3_tlook_at_lh", "m3.tlook_at_lh " + _seq(9)), ("t_m3_tlook_at_rh", "m3.tlook_at_rh " + _seq(9)),
+        ("t_m4_tlook_at_lh", "m4.tlook_at_lh " + _seq(9)), ("t_m4_tlook_at_rh", "m4.tlook_at_rh " + _seq(9)),
+        ("t_b3_look_at", "b3.look_at " + _seq(6)),
     ],
     "C11": [
         ("t_v2_magnitude", "v2.magnitude 3 4"), ("t_v3_magnitude", "v3.magnitude 2 3 6"), ("t_v4_magnitude", "v4.magnitude 1 2 2 4"),
@@ -109,6 +115,15 @@ TRACE = {
         ("t_dq_inverse_transform_some", "dq.inverse_transform 2 1 2 3 4 5 6 7"),
         ("t_dq_inverse_transform_none", "dq.inverse_transform 0 1 2 3 4 5 6 7"),
         ("t_db2_concat", "db2.concat 2 1/2 5 6 3 1/3 7 8"), ("t_db2_to_matrix", "db2.to_matrix 2 1/2 5 6"),
+        ("t_m3_concat2", "m3.concat2 " + _seq(18)), ("t_m3_concat", "m3.concat " + _seq(18)), ("t_m4_concat", "m4.concat " + _seq(32)),
+        ("t_m3_concat_self2", "m3.concat_self2 " + _seq(18)), ("t_m4_concat_self", "m4.concat_self " + _seq(32)),
+        ("t_dq_concat_self", "dq.concat_self 2 1 2 3 4 5 6 7 3 8 9 10 11 12 13 14"), ("t_dq_mul", "dq.mul 2 1 2 3 4 5 6 7 3 8 9 10 11 12 13 14"),
+        ("t_dq_inverse_transform_vector", "dq.inverse_transform_vector 2 1 2 3 4 5 6 7 8 9 10"),
+        ("t_m3_inverse_transform2_some", "m3.inverse_transform2 " + M3A), ("t_m3_inverse_transform_some", "m3.inverse_transform " + M3A),
+        ("t_m4_inverse_transform_some", "m4.inverse_transform " + M4A),
+        ("t_m3_transform_point2", "m3.transform_point2 " + _seq(11)), ("t_m3_transform_vector2", "m3.transform_vector2 " + _seq(11)),
+        ("t_m4_transform_point", "m4.transform_point " + _seq(19)), ("t_m4_transform_vector", "m4.transform_vector " + _seq(19)),
+        ("t_dq_look_at_lh", "dq.look_at_lh " + _seq(9)), ("t_dq_look_at_rh", "dq.look_at_rh " + _seq(9)),
     ],
     "C10": [
         ("t_ortho", "proj.ortho -1 3 -2 5 1 10"),
